@@ -76,6 +76,11 @@ type target struct {
 	SF64 []float64
 	SB   []bool
 	File runtime.File
+	Hex  strfmt.HexColor
+	Sh   Shout
+	OHex OwnHex
+	SSh  []Shout
+	SOHx []OwnHex
 }
 
 // goTypeOf: the Go type a declaration denotes, as printed by %T, and the field of `target`.
@@ -116,6 +121,12 @@ func goTypeOf(tpe, format string) (string, string) {
 			return "strfmt.IPv4", "IP4"
 		case "duration":
 			return "strfmt.Duration", "Dur"
+		case "hexcolor":
+			return "strfmt.HexColor", "Hex"
+		case "own:x-shout":
+			return "main.Shout", "Sh"
+		case "own:hexcolor":
+			return "main.OwnHex", "OHex"
 		}
 		return "string", "S"
 	}
@@ -123,12 +134,13 @@ func goTypeOf(tpe, format string) (string, string) {
 }
 
 func (d Decl) goType() (string, string) {
+	et, ef := d.elem()
 	if d.Type == "array" {
-		t, _ := goTypeOf(d.ItemType, d.ItemFormat)
-		f := map[string]string{"string": "SS", "int32": "SI32", "int64": "SI64", "float64": "SF64", "bool": "SB"}[t]
+		t, _ := goTypeOf(et, ef)
+		f := map[string]string{"string": "SS", "int32": "SI32", "int64": "SI64", "float64": "SF64", "bool": "SB", "main.Shout": "SSh", "main.OwnHex": "SOHx"}[t]
 		return "[]" + t, f
 	}
-	return goTypeOf(d.Type, d.Format)
+	return goTypeOf(et, ef)
 }
 
 // normalise turns a bound Go value into comparable form.
@@ -242,7 +254,7 @@ func prepare(level string, d Decl) (p *prepared) {
 			_, key = d.goType()
 			p.field = key
 		}
-		p.binder = middleware.NewUntypedRequestBinder(map[string]spec.Parameter{key: sp}, new(spec.Swagger), strfmt.Default)
+		p.binder = middleware.NewUntypedRequestBinder(map[string]spec.Parameter{key: sp}, new(spec.Swagger), registryFor(d))
 	case "handler":
 		method, path := "GET", "/op"
 		var consumes []string
@@ -257,6 +269,9 @@ func prepare(level string, d Decl) (p *prepared) {
 		api := untyped.NewAPI(doc)
 		api.RegisterConsumer("application/x-www-form-urlencoded", runtime.DiscardConsumer)
 		api.RegisterConsumer("multipart/form-data", runtime.DiscardConsumer)
+		if d.Registry == "own" {
+			addUserFormats(api.RegisterFormat) // the application's own formats, on the API's registry
+		}
 		p.got = &capture{}
 		got := p.got
 		api.RegisterOperation(method, path, runtime.OperationHandlerFunc(func(params interface{}) (interface{}, error) {
